@@ -328,9 +328,6 @@ func main() {
 		alpha = 256
 	}
 	excludedLarge := map[string]int{}
-	// quick tier: the (slow) JSON decoder sees the byte level mutants of the structurally distinct encodings only
-	structural := map[string]bool{"base": true, "variant": true, "ptr": true, "ext": true, "slice": true, "map": true, "bool": true, "bytes": true, "uint": true, "uuid": true, "time": true, "duration": true, "enum:QoS": true}
-	notInQuick := 0
 	entriesB := map[string]int{}
 	bytesB := map[string]int{}
 	seen := map[string]bool{}
@@ -347,10 +344,6 @@ func main() {
 			seen[k] = true
 			if len(b) > capLen[enc] {
 				excludedLarge[enc]++
-				continue
-			}
-			if false && !structural[en.Kind] {
-				notInQuick++
 				continue
 			}
 			entriesB[enc]++
@@ -411,7 +404,7 @@ func main() {
 	}
 
 	rule := "byte level, bounded-exhaustive: (a) every byte string of length <= " + fmt.Sprint(maxLen["protobuf"]) + " (protobuf) / <= " + fmt.Sprint(maxLen["json"]) + " (JSON); " +
-		"(b) for every distinct valid encoding of the C11 one-at-a-time corpus" + map[bool]string{true: "", false: " (JSON in the quick tier: all variations except those of string fields and of ResultCode fields)"}[e.Thorough()] + " (at most " + fmt.Sprint(capLen["protobuf"]) + " / " + fmt.Sprint(capLen["json"]) + " bytes): every truncation, every single byte substitution (" + fmt.Sprint(alpha) +
+		"(b) for every distinct valid encoding of the C11 one-at-a-time corpus (at most " + fmt.Sprint(capLen["protobuf"]) + " / " + fmt.Sprint(capLen["json"]) + " bytes): every truncation, every single byte substitution (" + fmt.Sprint(alpha) +
 		" value alphabet) at every offset, every single bit flip, every single byte deletion and duplication; " +
 		"(c) for every message shape (base value of every message type and of every oneof variant): every structure aware single mutation of the parsed protobuf field tree and of the JSON tree " +
 		"(drop/duplicate a field, varint 0/max, length -1/+1/2^31/2^64-1, wire type swap, uuid of 0/15/17 bytes, malformed uuid strings, enum -1/first unused/255/max int32 and unknown names, absent/doubled oneof, " + fmt.Sprint(huge["protobuf"]) + " / " + fmt.Sprint(huge["json"]) + " copies of a repeated element or map entry, " +
@@ -424,7 +417,6 @@ func main() {
 		"corpus_entries_mutated_bytewise": entriesB,
 		"corpus_bytes_mutated_bytewise":   bytesB,
 		"corpus_entries_above_length_cap": excludedLarge,
-		"json_entries_left_to_thorough":   notInQuick,
 		"message_shapes":                  shapes,
 		"shards":                          r.shards,
 		"inputs_accepted_as_message":      r.decoded,
